@@ -254,3 +254,46 @@ def pooltimeout_requeue(T: int, H: int) -> None:
         P.check(scen.n_requests(su.pool) == 0, "queue-empty-at-end", "pooltimeout-requeue:queue-not-empty")
     finally:
         rt.set_async_lib("asyncio")
+
+
+@harness(
+    "C16", "overlap",
+    quick=[{"ct": ct, "flavour": fl} for ct in ("h2", "h2prior") for fl in ("sync", "async")],
+    example=dict(ra=1, wa=2, rb=3, wb=4, ha=True, hb=True),
+    require=("held-response-read-after-the-other-request",),
+    timeout={"quick": 200, "thorough": 400},
+    symbolic="read/write time-outs of two requests (four unbounded integers, pairwise different), each request's time-outs optionally absent altogether",
+    bounds="one HTTP/2 connection: request A's response is left open, request B with other time-outs runs to completion on the same connection, then A's body is read",
+    outside="more than two overlapping requests",
+    stubs=("simulated backend records the timeout argument of every read/write",),
+)
+def overlap(ra: int, wa: int, rb: int, wb: int, ha: bool, hb: bool) -> None:
+    """
+    pre: ra >= 0 and wa >= 0 and rb >= 0 and wb >= 0
+    pre: ra != wa and ra != rb and ra != wb and wa != rb and wa != wb and rb != wb
+    post: _
+    """
+    ct = shard("ct", "h2")
+    is_async = shard("flavour", "sync") == "async"
+    from ..vnet.servers import Resp
+
+    su = Setup(ct, is_async, max_connections=1)
+    ta = {"read": ra, "write": wa, "pool": 0} if ha else {"pool": 0}
+    tb = {"read": rb, "write": wb, "pool": 0} if hb else {"pool": 0}
+    a = su.api.open(su.pool, "POST", su.url("a"), content=b"body-a", extensions={"timeout": ta})
+    if not P.check(a.ok, "first-request-ok", lambda: f"timeout:overlap:a:{a.kind()}"):
+        return
+    n1 = len(su.net.ledger)
+    b = su.api.request(su.pool, "POST", su.url("b"), content=b"body-b", extensions={"timeout": tb})
+    if not P.check(b.ok and len(su.net.socks) == 1, "second-request-on-the-same-connection", lambda: f"timeout:overlap:b:{b.kind()}"):
+        return
+    n2 = len(su.net.ledger)
+    rd = su.api.read(a.value)
+    su.api.close_response(a.value)
+    P.check(rd.ok, "held-body-read", lambda: f"timeout:overlap:body:{rd.kind()}")
+    P.cover("held-response-read-after-the-other-request")
+    for i, e in enumerate(su.net.ledger):
+        if e["op"] not in ("read", "write"):
+            continue
+        owner, t = ("b", tb) if n1 <= i < n2 else ("a", ta)
+        _same(e["timeout"], t.get(e["op"]), f"{e['op']}-uses-the-{e['op']}-timeout-of-its-own-request", f"{ct}:overlap:{owner}:{e['op']}")
